@@ -7,7 +7,7 @@ from hypothesis import strategies as st
 from job_shop_lib.dispatching import UnscheduledOperationsObserver
 from job_shop_lib.exceptions import ValidationError
 
-from .. import gen
+from .. import gen, obs
 from .. import fingerprint as fp
 from ..lib import Driver, ref
 
@@ -75,7 +75,7 @@ def strategy(tier):
         max_machines=5,
         max_total=30 if big else 20,
         benchmarks=("ft06",),
-        big_ok=True,
+        big_ok=2,
     )
     q = st.tuples(
         st.just("q"), st.integers(0, len(QUERIES) - 1), st.integers(0, 40), st.integers(0, 5)
@@ -89,6 +89,7 @@ def strategy(tier):
             "inst": inst,
             "filters": gen.filter_configs(),
             "events": gen.sized_lists(ev, 70),
+            "observers": gen.weighted((2, st.just([])), (1, obs.feature_configs(min_size=1, max_size=3))),
         }
     )
 
@@ -261,6 +262,9 @@ def check_case(case, ctx):
     inst, filters, events = case["inst"], case["filters"], case["events"]
     drv = Driver(inst, filters)
     drv.unsched_obs = UnscheduledOperationsObserver(drv.dispatcher)
+    if not any(x > 2**24 for r in inst["durations"] for x in r):
+        for cfg in case.get("observers", []):
+            obs.make_feature_observer(drv.dispatcher, cfg)  # queries must not depend on observers
     stt = State(ctx, drv)
     n_dispatch = 0
     saw_ongoing = False
